@@ -104,14 +104,17 @@ func (s *set[ElementType]) Replace(elements ReadableSet[ElementType]) (removedEl
 	s.applyMutex.Lock()
 	defer s.applyMutex.Unlock()
 
+	// copy the new elements before clearing the set (the given elements can be a view of this set)
+	newElements := elements.ToSlice()
+
 	removedElements = s.Filter(func(element ElementType) bool {
 		return !elements.Has(element)
 	})
 	s.Clear()
 
-	elements.Range(func(element ElementType) {
+	for _, element := range newElements {
 		s.Set(element, types.Void)
-	})
+	}
 
 	return removedElements
 }
